@@ -94,8 +94,8 @@ Definition rec_prop (r : rcase) : bool :=
 Definition rec_trig (r : rcase) : option N :=
   if incremental (rc_cfg r) then None else
   match rc_via r with
-  | ViaReplicate => if replicate_unsafe (rc_cfg r) (rc_ev r) then Some 1%N else None
-  | _ => if rename_in (rc_cfg r) (rc_ev r) then Some 0%N else None
+  | ViaReplicate => if replicate_unsafe (rc_cfg r) (rc_ev r) then Some 0%N else None
+  | _ => None
   end.
 
 Definition check_rec (r : rcase) : outcome :=
@@ -117,8 +117,7 @@ Definition check_local (l : lcase) : outcome :=
   let '(t, errs) := run_local (lc_cfg l) [] (lc_evs l) in
   {| o_corr := set_eqb tree_entry_eqb t (lc_tree l) && all2 Bool.eqb errs (lc_errs l);
      o_prop := set_eqb String.eqb (files_of (lc_tree l)) (spec_files (lc_cfg l) (lc_evs l));
-     o_trig := if existsb (rename_in (lc_cfg l)) (lc_evs l) then Some 0%N
-               else if existsb (renames_file_within (lc_cfg l)) (lc_evs l) then Some 2%N else None;
+     o_trig := None;
      o_nontrivial := match lc_tree l with [] => false | _ => true end |}.
 
 Definition check (c : case) : outcome :=
